@@ -558,7 +558,7 @@ def ev_ref(e, ctx):
             fa, fb = np.asarray(fa), np.asarray(fb)
             fb_ = np.broadcast_to(fb, fa.shape) if fb.ndim < fa.ndim or fb.shape != fa.shape else fb
             xb_ = np.broadcast_to(xb, xa.shape) if xb.shape != xa.shape else xb
-            d = np.sum(fa * fb_, axis=-1, keepdims=True)
+            d = np.einsum("...l,...l->...", fa, fb_)[..., np.newaxis]
             sa = np.sum(fa * fa, axis=-1, keepdims=True)
             sb = np.sum(fb_ * fb_, axis=-1, keepdims=True)
             na = np.linalg.norm(fa, axis=-1, keepdims=True)
@@ -632,8 +632,11 @@ def ev_np(e, leaf_data, n):
     elif op == "angle":
         a_ = np.asarray(a)
         b_ = np.broadcast_to(np.asarray(b), a_.shape)
-        r = np.arccos(np.sum(a_ * b_, axis=-1, keepdims=True)
-                      / (np.linalg.norm(a_, axis=-1, keepdims=True) * np.linalg.norm(b_, axis=-1, keepdims=True)))
+        # exactly the code's sequence of numpy calls (einsum, linalg.norm, product, quotient): arccos near +-1
+        # turns one ulp into nan
+        r = np.arccos(field_dtype(np.einsum("...l,...l->...", a_, b_)[..., np.newaxis])
+                      / (field_dtype(np.linalg.norm(a_, axis=-1, keepdims=True))
+                         * field_dtype(np.linalg.norm(b_, axis=-1, keepdims=True))))
     elif op == "stack":
         sh = tuple(n)
         a_, b_ = np.asarray(a), np.asarray(b)
